@@ -10,5 +10,14 @@ res = pmap(C14.evaluate, [(m, v) for m in bases for v in ('1.0', '1.1')])
 inst = {}
 for r in res:
     for w in r['widening']: inst[f"{r['version']}|{r['base']}|{w['derived']}"] = w['word']
+# group redefinitions (a.xsd <- b.xsd <- c.xsd): accepted non-restrictions that the type family does not list (there the derived model is refused for another reason, e.g. it is
+# ambiguous, while an intermediate level of a chain of redefinitions is not model-checked) - same root cause, own keys
+pb = [m for m in bases if m[0] in ('seq', 'cho') and tuple(m[2]) == (1, 1)]
+rres = pmap(C14.eval_redefine, [(m, v) for m in pb for v in ('1.0', '1.1')])
+nr = 0
+for r in rres:
+    for w in r['widening']:
+        if f"{r['version']}|{r['base']}|{w['derived']}" not in inst: inst[f"redefine:{r['version']}|{r['base']}|{w['derived']}|{w['top']}"] = w['word']; nr += 1
+print(nr, 'redefinition-only instances')
 json.dump(inst, open(os.path.join(HERE, 'baseline', 'C14_instances.json'), 'w'), indent=0, sort_keys=True)
 print(len(inst), 'instances;', sum(r['accepted'] for r in res), 'accepted restrictions;', {v: sum(1 for k in inst if k.startswith(v)) for v in ('1.0', '1.1')})
